@@ -79,6 +79,11 @@ func (r *verifRig) verifEvent(name string, T int, maxS int) *Message {
 	case 0:
 		verifCase("app")
 		m = r.appMessage(S)
+		if ndBool(name + ".two-letter-type") {
+			// application message types are not all one character, and their first character may be that of an
+			// administrative type (AE TradeCaptureReport, AS AllocationReport, ...)
+			m.Header.SetString(tagMsgType, "AE")
+		}
 	case 1:
 		verifCase("heartbeat")
 		m = r.inbound("0", S)
@@ -165,6 +170,10 @@ func VerifHarness_C01_step() {
 		}
 	}
 	r.checkDeliveries("step")
+	if (mt == "D" || mt == "AE") && sOK == nil && S == T && kind == stInSession {
+		// an application message carrying the expected number in the normal state goes to the application callback
+		verifAssert(len(r.app.fromApp) >= 1 && r.app.fromApp[0].seq == T, "step-expected-application-message-handed-to-fromapp")
+	}
 	verifAssert(T1 >= T, "step-expected-number-never-moves-backwards")
 	// what was delivered is the event or a stashed message, never anything else, never twice
 	verifAssert(len(r.app.fromApp) <= 4, "step-at-most-event-plus-stash-delivered")
